@@ -28,6 +28,7 @@ const (
 	keyResetPersist    = "C16/reset-not-persisted"
 	keyReloadLeaders   = "C16/restart-sync-reload-drops-leaders"
 	keyOverMsgSize     = "C16/response-over-msgsize-never-delivered"
+	keyIndex0          = "C16/fresh-follower-of-index0-leader-gets-nothing"
 
 	flushInterval = 100 // the statement's "flush interval of 100 records"
 )
@@ -36,10 +37,12 @@ func TestMain(m *testing.M) { quietLogs(); vkit.Main(m, "C16") }
 func TestProp(t *testing.T) {
 	vkit.RunAll(t)
 	cleanups.Wait()
+	encCleanup()
 }
 func TestReplay(t *testing.T) {
 	vkit.RunReplay(t)
 	cleanups.Wait()
+	encCleanup()
 }
 
 func init() {
@@ -488,4 +491,29 @@ func TestFinding_response_over_msgsize_never_delivered(t *testing.T) {
 	}
 	vkit.Finding(t, keyOverMsgSize, res.rejected != "" && res.maxBytes > msgSize,
 		fmt.Sprintf("follower 2800 records behind, regions with 2000-byte keys: one catch-up response of %d bytes; %s", res.maxBytes, res.firstDiff("stream")))
+}
+
+// TestFinding_fresh_follower_of_index0_leader_gets_nothing: a leader that holds 5 regions and whose
+// change log starts at index 0 with an empty window (restarted before the first flush of its index),
+// a fresh follower (empty cache, index 0) connects (a) right away, (b) after 3 new records.
+func TestFinding_fresh_follower_of_index0_leader_gets_nothing(t *testing.T) {
+	defer cleanups.Wait() // fixtures are torn down in the background
+	detail, missing := "", 0
+	for _, pre := range []int{0, 3} {
+		c := SCase{HistIdx: 0, RegionStorage: true}
+		for i := 0; i < 5; i++ {
+			c.Regions = append(c.Regions, Reg{Store: uint64(i%6) + 1, NPeers: 3, Leader: i % 3, Flow: [4]uint64{1, 2, 3, 4}})
+		}
+		for i := 0; i < pre; i++ {
+			c.Pre = append(c.Pre, Change{Kind: "flow", Pick: 0, Body: Reg{Leader: i, Flow: [4]uint64{uint64(i) + 9, 2, 3, 4}}})
+		}
+		res := execSync(c, false)
+		if res.inconclusive != "" {
+			t.Logf("probe inconclusive: %s", res.inconclusive)
+			return
+		}
+		missing += res.neverSent
+		detail += fmt.Sprintf("leader with 5 loaded regions, change log at index 0 + %d new records, fresh follower: %d regions sent, %d of 5 never reach the follower; ", pre, res.sent, res.neverSent)
+	}
+	vkit.Finding(t, keyIndex0, missing > 0, detail)
 }
